@@ -46,19 +46,19 @@ package command
 //@ func startPortScanEngine
 //@   props C01 C03 C15 C16
 //@   observe startPacketScanEngine
-//@   entry row pairs:  [call startPacketScanEngine(ctx, conf) as (e)] when len(conf.scanRange.Ports) == 0 && ret == e -> exit
+//@   entry row pairs:  [call startPacketScanEngine(ctx, conf) as (e)] when len(pre(conf.scanRange.Ports)) == 0 && ret == e -> exit
 //@   entry row ranges: [] when len(conf.scanRange.Ports) > 0 -> loop 0
 //@   loop 0 invariant step: 0 <= i && i % 200 == 0
 //@   loop 0 row done:  [] when i >= len(conf.scanRange.Ports) && ret == nil -> exit
 //@   loop 0 row chunk: [call startPacketScanEngine(ctx, bind_nc) as (e)]
-//@                        when pre(i) < len(conf.scanRange.Ports) && i == pre(i) + 200 && e == nil && fresh(nc)
-//@                          && (pre(i) + 200 <= len(conf.scanRange.Ports) ==> len(nc.scanRange.Ports) == 200)
+//@                        when i == pre(i) + 200 && e == nil && fresh(nc)
+//@                          && atcall(nc, pre(i) < len(conf.scanRange.Ports) && (pre(i) + 200 <= len(conf.scanRange.Ports) ==> len(nc.scanRange.Ports) == 200)
 //@                          && (pre(i) + 200 > len(conf.scanRange.Ports) ==> len(nc.scanRange.Ports) == len(conf.scanRange.Ports) - pre(i))
 //@                          && (forall k int :: 0 <= k && k < len(nc.scanRange.Ports) ==> nc.scanRange.Ports[k] == conf.scanRange.Ports[pre(i) + k])
 //@                          && nc.scanRange.DstSubnet == conf.scanRange.DstSubnet && nc.scanRange.Interface == conf.scanRange.Interface
 //@                          && nc.scanRange.SrcIP == conf.scanRange.SrcIP && nc.scanRange.SrcMAC == conf.scanRange.SrcMAC
 //@                          && nc.logger == conf.logger && nc.exitDelay == conf.exitDelay && nc.scanMethod == conf.scanMethod && nc.bpfFilter == conf.bpfFilter
-//@                          && nc.rateCount == conf.rateCount && nc.rateWindow == conf.rateWindow && nc.vpnMode == conf.vpnMode -> continue
+//@                          && nc.rateCount == conf.rateCount && nc.rateWindow == conf.rateWindow && nc.vpnMode == conf.vpnMode) -> continue
 //@   loop 0 row fail:  [call startPacketScanEngine(ctx, bind_nc) as (e)] when e != nil && ret == e -> exit
 
 // ---------------------------------------------------------------------------------------------
@@ -232,3 +232,191 @@ package command
 //@   observe ip.GetLocalSubnetInterface, ip.GetLocalSubnetInterfaceIP
 //@   entry row any:   [call ip.GetLocalSubnetInterface(dstSubnet) as (i, a, e)] when o.iface == nil && ret0 == i && ret1 == a && ret2 == e -> exit
 //@   entry row given: [call ip.GetLocalSubnetInterfaceIP(o.iface, dstSubnet) as (a, e)] when o.iface != nil && ret0 == o.iface && ret1 == a && ret2 == e -> exit
+
+// ---------------------------------------------------------------------------------------------
+// Command wiring (C03 C15 C16 C17 C19 C02): what each command hands to the engine. Rows list, in order, the calls that
+// matter; everything else the closures do is covered by the contracts of those callees. atcall(x, e) = e in the
+// state in which the call that received x started.
+//
+// arp: exactly one argument, parsed by ParseIPNet (C02); range from getScanRange of THAT subnet (C17); no source MAC =>
+// errSrcMAC, nothing is started; filter = arp.BPFFilter; rate and exit delay from the flags; logger and range as built
+//@ func newARPCmd$1
+//@   props C03 C15 C16 C17 C02
+//@   observe ip.ParseIPNet, getScanRange, startPacketScanEngine
+//@   opaque (*packetScanCmdOpts).parseRawOptions, (*arpCmdOpts).getLogger, (*arpCmdOpts).newARPScanMethod
+//@   entry row usage:   [] when len(args) != 1 && ret != nil -> exit
+//@   entry row badnet:  [call ip.ParseIPNet(pre(args[0])) as (n, e)] when len(args) == 1 && e != nil && ret == e -> exit
+//@   entry row badopt:  [call ip.ParseIPNet(pre(args[0])) as (n, e) ; call parseRawOptions(_) as (e2)] when e == nil && e2 != nil && ret == e2 -> exit
+//@   entry row norange: [call ip.ParseIPNet(pre(args[0])) as (n, e) ; call parseRawOptions(_) as (e2) ; call getScanRange(_, n) as (r, e3)] when e == nil && e2 == nil && e3 != nil && ret == e3 -> exit
+//@   entry row nomac:   [call ip.ParseIPNet(pre(args[0])) as (n, e) ; call parseRawOptions(_) as (e2) ; call getScanRange(_, n) as (r, e3)]
+//@                         when e == nil && e2 == nil && e3 == nil && r.SrcMAC == nil && ret == errSrcMAC -> exit
+//@   entry row nolog:   [call ip.ParseIPNet(pre(args[0])) as (n, e) ; call parseRawOptions(_) as (e2) ; call getScanRange(_, n) as (r, e3) ; call getLogger(_) as (lg, e4)]
+//@                         when e == nil && e2 == nil && e3 == nil && e4 != nil && ret == e4 -> exit
+//@   entry row scan:    [call ip.ParseIPNet(pre(args[0])) as (n, e) ; call parseRawOptions(_) as (e2) ; call getScanRange(_, n) as (r, e3) ; call getLogger(_) as (lg, e4) ;
+//@                       call newARPScanMethod(_, _) as (m) ; call startPacketScanEngine(_, bind_cfg) as (se)]
+//@                         when e == nil && e2 == nil && e3 == nil && e4 == nil && ret == se
+//@                           && atcall(cfg, isptr(cfg.scanMethod, arp.ScanMethod) && asptr(cfg.scanMethod, arp.ScanMethod) == m && cfg.bpfFilter == arp.BPFFilter
+//@                           && cfg.rateCount == c.opts.rateCount && cfg.rateWindow == c.opts.rateWindow && !cfg.vpnMode
+//@                           && cfg.logger == lg && cfg.exitDelay == c.opts.exitDelay && r.SrcMAC != nil
+//@                           && cfg.scanRange.DstSubnet == r.DstSubnet && cfg.scanRange.Interface == r.Interface && cfg.scanRange.SrcIP == r.SrcIP && cfg.scanRange.SrcMAC == r.SrcMAC) -> exit
+
+// newICMPCmd$1: options parsed first; scan name "icmp"; method from newICMPScanMethod; filter = icmp.BPFFilter (replies to both scans are ICMP);
+// rate, VPN mode, logger, range and exit delay exactly as parsed
+//@ func newICMPCmd$1
+//@   props C03 C15 C16 C17
+//@   observe startPacketScanEngine
+//@   opaque (*icmpCmdOpts).parseRawOptions, (*ipScanCmdOpts).parseOptions, (*icmpCmdOpts).newICMPScanMethod
+//@   entry row badraw: [call parseRawOptions(_) as (e)] when e != nil && ret == e -> exit
+//@   entry row badopt: [call parseRawOptions(_) as (e) ; call parseOptions(_, "icmp", args) as (e2)] when e == nil && e2 != nil && ret == e2 -> exit
+//@   entry row scan:   [call parseRawOptions(_) as (e) ; call parseOptions(_, "icmp", args) as (e2) ; call newICMPScanMethod(_, _) as (m) ; call startPacketScanEngine(_, bind_cfg) as (se)]
+//@                        when e == nil && e2 == nil && ret == se && atcall(cfg, isptr(cfg.scanMethod, icmp.ScanMethod) && asptr(cfg.scanMethod, icmp.ScanMethod) == m && cfg.bpfFilter == icmp.BPFFilter
+//@                           && cfg.rateCount == c.opts.rateCount && cfg.rateWindow == c.opts.rateWindow && cfg.vpnMode == c.opts.vpnMode
+//@                           && cfg.logger == c.opts.logger && cfg.exitDelay == c.opts.exitDelay
+//@                           && cfg.scanRange.DstSubnet == c.opts.scanRange.DstSubnet && cfg.scanRange.Interface == c.opts.scanRange.Interface && cfg.scanRange.SrcIP == c.opts.scanRange.SrcIP
+//@                           && cfg.scanRange.SrcMAC == c.opts.scanRange.SrcMAC && cfg.scanRange.Ports == c.opts.scanRange.Ports) -> exit
+
+// newUDPCmd$1: options parsed first; scan name "udp"; method from newUDPScanMethod; filter = icmp.BPFFilter (replies to both scans are ICMP);
+// rate, VPN mode, logger, range and exit delay exactly as parsed
+//@ func newUDPCmd$1
+//@   props C03 C15 C16 C17 C01
+//@   observe startPortScanEngine
+//@   opaque (*udpCmdOpts).parseRawOptions, (*ipPortScanCmdOpts).parseOptions, (*udpCmdOpts).newUDPScanMethod
+//@   entry row badraw: [call parseRawOptions(_) as (e)] when e != nil && ret == e -> exit
+//@   entry row badopt: [call parseRawOptions(_) as (e) ; call parseOptions(_, "udp", args) as (e2)] when e == nil && e2 != nil && ret == e2 -> exit
+//@   entry row scan:   [call parseRawOptions(_) as (e) ; call parseOptions(_, "udp", args) as (e2) ; call newUDPScanMethod(_, _) as (m) ; call startPortScanEngine(_, bind_cfg) as (se)]
+//@                        when e == nil && e2 == nil && ret == se && atcall(cfg, isptr(cfg.scanMethod, udp.ScanMethod) && asptr(cfg.scanMethod, udp.ScanMethod) == m && cfg.bpfFilter == icmp.BPFFilter
+//@                           && cfg.rateCount == c.opts.rateCount && cfg.rateWindow == c.opts.rateWindow && cfg.vpnMode == c.opts.vpnMode
+//@                           && cfg.logger == c.opts.logger && cfg.exitDelay == c.opts.exitDelay
+//@                           && cfg.scanRange.DstSubnet == c.opts.scanRange.DstSubnet && cfg.scanRange.Interface == c.opts.scanRange.Interface && cfg.scanRange.SrcIP == c.opts.scanRange.SrcIP
+//@                           && cfg.scanRange.SrcMAC == c.opts.scanRange.SrcMAC && cfg.scanRange.Ports == c.opts.scanRange.Ports) -> exit
+
+// TCP scans: each command hands newTCPScanMethod exactly its scan name, its probe flags, its reply predicate and
+// its flag printer, and startPortScanEngine its capture filter (syn: SYN probe, SYN+ACK predicate and filter, no flag
+// letters; fin / null / xmas: FIN / no flag / FIN+PSH+URG probes, every TCP reply, all flag letters)
+//@ func withTCPScanName$1
+//@   props C03 C05
+//@   modifies c.scanName
+//@   ensures c.scanName == scanName
+//@ func withTCPPacketFillerOptions$1
+//@   props C03 C05
+//@   modifies c.packetFillerOpts
+//@   ensures c.packetFillerOpts == opts
+//@ func withTCPPacketFilterFunc$1
+//@   props C03 C05
+//@   modifies c.packetFilter
+//@   ensures c.packetFilter == filter
+//@ func withTCPPacketFlags$1
+//@   props C03 C05
+//@   modifies c.packetFlags
+//@   ensures c.packetFlags == packetFlags
+// the SYN scan's reply predicate: SYN and ACK both set
+//@ func (*tcpSYNCmdOpts).startScan$1
+//@   props C03
+//@   ensures ret <==> (pkt.SYN && pkt.ACK)
+//@ func newTCPFINCmd$1
+//@   props C03 C05 C15 C16 C17 C01
+//@   observe newTCPScanMethod, startPortScanEngine
+//@   opaque (*ipPortScanCmdOpts).parseRawOptions, (*ipPortScanCmdOpts).parseOptions
+//@   entry row badraw: [call parseRawOptions(_) as (e)] when e != nil && ret == e -> exit
+//@   entry row badopt: [call parseRawOptions(_) as (e) ; call parseOptions(_, "tcpfin", args) as (e2)] when e == nil && e2 != nil && ret == e2 -> exit
+//@   entry row scan:   [call parseRawOptions(_) as (e) ; call parseOptions(_, "tcpfin", args) as (e2) ; call newTCPScanMethod(_, _, bind_mo) as (m) ; call startPortScanEngine(_, bind_cfg) as (se)]
+//@                        when e == nil && e2 == nil && ret == se
+//@                           && atcall(mo, len(mo) == 4
+//@                           && closureof(mo[0], "withTCPScanName$1") && capt(mo[0], "scanName") == "tcpfin"
+//@                           && closureof(mo[1], "withTCPPacketFillerOptions$1") && len(capt(mo[1], "opts")) == 1
+//@                           && closureof(capt(mo[1], "opts")[0], "WithFIN$1")
+//@                           && closureof(mo[2], "withTCPPacketFilterFunc$1") && capt(mo[2], "filter") == tcp.TrueFilter
+//@                           && closureof(mo[3], "withTCPPacketFlags$1") && capt(mo[3], "packetFlags") == tcp.AllFlags)
+//@                           && atcall(cfg, isptr(cfg.scanMethod, tcp.ScanMethod) && asptr(cfg.scanMethod, tcp.ScanMethod) == m && cfg.bpfFilter == tcp.BPFFilter
+//@                           && cfg.rateCount == c.opts.rateCount && cfg.rateWindow == c.opts.rateWindow && cfg.vpnMode == c.opts.vpnMode
+//@                           && cfg.logger == c.opts.logger && cfg.exitDelay == c.opts.exitDelay
+//@                           && cfg.scanRange.DstSubnet == c.opts.scanRange.DstSubnet && cfg.scanRange.Interface == c.opts.scanRange.Interface && cfg.scanRange.SrcIP == c.opts.scanRange.SrcIP
+//@                           && cfg.scanRange.SrcMAC == c.opts.scanRange.SrcMAC && cfg.scanRange.Ports == c.opts.scanRange.Ports) -> exit
+//@ func newTCPNULLCmd$1
+//@   props C03 C05 C15 C16 C17 C01
+//@   observe newTCPScanMethod, startPortScanEngine
+//@   opaque (*ipPortScanCmdOpts).parseRawOptions, (*ipPortScanCmdOpts).parseOptions
+//@   entry row badraw: [call parseRawOptions(_) as (e)] when e != nil && ret == e -> exit
+//@   entry row badopt: [call parseRawOptions(_) as (e) ; call parseOptions(_, "tcpnull", args) as (e2)] when e == nil && e2 != nil && ret == e2 -> exit
+//@   entry row scan:   [call parseRawOptions(_) as (e) ; call parseOptions(_, "tcpnull", args) as (e2) ; call newTCPScanMethod(_, _, bind_mo) as (m) ; call startPortScanEngine(_, bind_cfg) as (se)]
+//@                        when e == nil && e2 == nil && ret == se
+//@                           && atcall(mo, len(mo) == 4
+//@                           && closureof(mo[0], "withTCPScanName$1") && capt(mo[0], "scanName") == "tcpnull"
+//@                           && closureof(mo[1], "withTCPPacketFillerOptions$1") && len(capt(mo[1], "opts")) == 0
+//@                           && closureof(mo[2], "withTCPPacketFilterFunc$1") && capt(mo[2], "filter") == tcp.TrueFilter
+//@                           && closureof(mo[3], "withTCPPacketFlags$1") && capt(mo[3], "packetFlags") == tcp.AllFlags)
+//@                           && atcall(cfg, isptr(cfg.scanMethod, tcp.ScanMethod) && asptr(cfg.scanMethod, tcp.ScanMethod) == m && cfg.bpfFilter == tcp.BPFFilter
+//@                           && cfg.rateCount == c.opts.rateCount && cfg.rateWindow == c.opts.rateWindow && cfg.vpnMode == c.opts.vpnMode
+//@                           && cfg.logger == c.opts.logger && cfg.exitDelay == c.opts.exitDelay
+//@                           && cfg.scanRange.DstSubnet == c.opts.scanRange.DstSubnet && cfg.scanRange.Interface == c.opts.scanRange.Interface && cfg.scanRange.SrcIP == c.opts.scanRange.SrcIP
+//@                           && cfg.scanRange.SrcMAC == c.opts.scanRange.SrcMAC && cfg.scanRange.Ports == c.opts.scanRange.Ports) -> exit
+//@ func newTCPXmasCmd$1
+//@   props C03 C05 C15 C16 C17 C01
+//@   observe newTCPScanMethod, startPortScanEngine
+//@   opaque (*ipPortScanCmdOpts).parseRawOptions, (*ipPortScanCmdOpts).parseOptions
+//@   entry row badraw: [call parseRawOptions(_) as (e)] when e != nil && ret == e -> exit
+//@   entry row badopt: [call parseRawOptions(_) as (e) ; call parseOptions(_, "tcpxmas", args) as (e2)] when e == nil && e2 != nil && ret == e2 -> exit
+//@   entry row scan:   [call parseRawOptions(_) as (e) ; call parseOptions(_, "tcpxmas", args) as (e2) ; call newTCPScanMethod(_, _, bind_mo) as (m) ; call startPortScanEngine(_, bind_cfg) as (se)]
+//@                        when e == nil && e2 == nil && ret == se
+//@                           && atcall(mo, len(mo) == 4
+//@                           && closureof(mo[0], "withTCPScanName$1") && capt(mo[0], "scanName") == "tcpxmas"
+//@                           && closureof(mo[1], "withTCPPacketFillerOptions$1") && len(capt(mo[1], "opts")) == 3
+//@                           && closureof(capt(mo[1], "opts")[0], "WithFIN$1")
+//@                           && closureof(capt(mo[1], "opts")[1], "WithPSH$1")
+//@                           && closureof(capt(mo[1], "opts")[2], "WithURG$1")
+//@                           && closureof(mo[2], "withTCPPacketFilterFunc$1") && capt(mo[2], "filter") == tcp.TrueFilter
+//@                           && closureof(mo[3], "withTCPPacketFlags$1") && capt(mo[3], "packetFlags") == tcp.AllFlags)
+//@                           && atcall(cfg, isptr(cfg.scanMethod, tcp.ScanMethod) && asptr(cfg.scanMethod, tcp.ScanMethod) == m && cfg.bpfFilter == tcp.BPFFilter
+//@                           && cfg.rateCount == c.opts.rateCount && cfg.rateWindow == c.opts.rateWindow && cfg.vpnMode == c.opts.vpnMode
+//@                           && cfg.logger == c.opts.logger && cfg.exitDelay == c.opts.exitDelay
+//@                           && cfg.scanRange.DstSubnet == c.opts.scanRange.DstSubnet && cfg.scanRange.Interface == c.opts.scanRange.Interface && cfg.scanRange.SrcIP == c.opts.scanRange.SrcIP
+//@                           && cfg.scanRange.SrcMAC == c.opts.scanRange.SrcMAC && cfg.scanRange.Ports == c.opts.scanRange.Ports) -> exit
+//@ func (*tcpSYNCmdOpts).startScan
+//@   props C03 C05 C15 C16 C17 C01
+//@   observe newTCPScanMethod, startPortScanEngine
+//@   opaque (*ipPortScanCmdOpts).parseOptions
+//@   entry row badopt: [call parseOptions(_, "tcpsyn", args) as (e2)] when e2 != nil && ret == e2 -> exit
+//@   entry row scan:   [call parseOptions(_, "tcpsyn", args) as (e2) ; call newTCPScanMethod(_, _, bind_mo) as (m) ; call startPortScanEngine(_, bind_cfg) as (se)]
+//@                        when e2 == nil && ret == se
+//@                           && atcall(mo, len(mo) == 4
+//@                           && closureof(mo[0], "withTCPScanName$1") && capt(mo[0], "scanName") == "tcpsyn"
+//@                           && closureof(mo[1], "withTCPPacketFillerOptions$1") && len(capt(mo[1], "opts")) == 1
+//@                           && closureof(capt(mo[1], "opts")[0], "WithSYN$1")
+//@                           && closureof(mo[2], "withTCPPacketFilterFunc$1") && closureof(capt(mo[2], "filter"), "startScan$1")
+//@                           && closureof(mo[3], "withTCPPacketFlags$1") && capt(mo[3], "packetFlags") == tcp.EmptyFlags)
+//@                           && atcall(cfg, isptr(cfg.scanMethod, tcp.ScanMethod) && asptr(cfg.scanMethod, tcp.ScanMethod) == m && cfg.bpfFilter == tcp.SYNACKBPFFilter
+//@                           && cfg.rateCount == o.rateCount && cfg.rateWindow == o.rateWindow && cfg.vpnMode == o.vpnMode
+//@                           && cfg.logger == o.logger && cfg.exitDelay == o.exitDelay
+//@                           && cfg.scanRange.DstSubnet == o.scanRange.DstSubnet && cfg.scanRange.Interface == o.scanRange.Interface && cfg.scanRange.SrcIP == o.scanRange.SrcIP
+//@                           && cfg.scanRange.SrcMAC == o.scanRange.SrcMAC && cfg.scanRange.Ports == o.scanRange.Ports) -> exit
+//@ func newTCPSYNCmd$1
+//@   props C03 C16
+//@   observe startScan
+//@   opaque (*ipPortScanCmdOpts).parseRawOptions
+//@   entry row badraw: [call parseRawOptions(_) as (e)] when e != nil && ret == e -> exit
+//@   entry row scan:   [call parseRawOptions(_) as (e) ; call startScan(_, _, args) as (se)] when e == nil && ret == se -> exit
+
+// newTCPScanMethod: the given options are applied (in order) to one fresh configuration; the request generator is the
+// command's target generator, wrapped by the ARP-cache stage iff a cache exists; the filler gets the configured probe
+// options followed by the VPN option; the scan method gets the configured name, reply predicate and flag printer and
+// the VPN mode (C03 C05 C11 C17)
+//@ func (*tcpCmdOpts).newTCPScanMethod
+//@   props C03 C05 C11 C17 C01
+//@   observe opt
+//@   opaque (*ipPortScanCmdOpts).newIPPortGenerator, arp.NewCacheRequestGenerator, tcp.WithFillerVPNmode, tcp.NewPacketFiller, scan.NewPacketMultiGenerator, scan.NewPacketSource, scan.NewResultChan, tcp.WithPacketFilterFunc, tcp.WithPacketFlagsFunc, tcp.WithScanVPNmode, tcp.NewScanMethod
+//@   entry row init:  [] -> loop 0
+//@   loop 0 row apply: [call opt(c)] -> continue
+//@   loop 0 row direct: [call newIPPortGenerator(_) as (g) ; call tcp.WithFillerVPNmode(o.vpnMode) as (vo) ; call tcp.NewPacketFiller(bind_fo) as (pf) ; call scan.NewPacketMultiGenerator(bind_pf2, _) as (pg) ;
+//@                       call scan.NewPacketSource(g, bind_pg2) as (ps) ; call scan.NewResultChan(ctx, _) as (rc) ; call tcp.WithPacketFilterFunc(c.packetFilter) as (o1) ;
+//@                       call tcp.WithPacketFlagsFunc(c.packetFlags) as (o2) ; call tcp.WithScanVPNmode(o.vpnMode) as (o3) ; call tcp.NewScanMethod(c.scanName, bind_ps2, rc, bind_mo) as (m)]
+//@                        when o.cache == nil && isptr(pf2, tcp.PacketFiller) && asptr(pf2, tcp.PacketFiller) == pf && ps2 == ps
+//@                          && len(fo) == len(pre(c.packetFillerOpts)) + 1 && fo[len(pre(c.packetFillerOpts))] == vo
+//@                          && (forall k int :: 0 <= k && k < len(pre(c.packetFillerOpts)) ==> fo[k] == pre(c.packetFillerOpts[k]))
+//@                          && len(mo) == 3 && mo[0] == o1 && mo[1] == o2 && mo[2] == o3 && ret == m -> exit
+//@   loop 0 row cached: [call newIPPortGenerator(_) as (g) ; call arp.NewCacheRequestGenerator(g, o.gatewayMAC, o.cache) as (g2) ; call tcp.WithFillerVPNmode(o.vpnMode) as (vo) ; call tcp.NewPacketFiller(bind_fo) as (pf) ;
+//@                       call scan.NewPacketMultiGenerator(bind_pf2, _) as (pg) ; call scan.NewPacketSource(g2, bind_pg2) as (ps) ; call scan.NewResultChan(ctx, _) as (rc) ; call tcp.WithPacketFilterFunc(c.packetFilter) as (o1) ;
+//@                       call tcp.WithPacketFlagsFunc(c.packetFlags) as (o2) ; call tcp.WithScanVPNmode(o.vpnMode) as (o3) ; call tcp.NewScanMethod(c.scanName, bind_ps2, rc, bind_mo) as (m)]
+//@                        when o.cache != nil && isptr(pf2, tcp.PacketFiller) && asptr(pf2, tcp.PacketFiller) == pf && ps2 == ps
+//@                          && len(fo) == len(pre(c.packetFillerOpts)) + 1 && fo[len(pre(c.packetFillerOpts))] == vo
+//@                          && (forall k int :: 0 <= k && k < len(pre(c.packetFillerOpts)) ==> fo[k] == pre(c.packetFillerOpts[k]))
+//@                          && len(mo) == 3 && mo[0] == o1 && mo[1] == o2 && mo[2] == o3 && ret == m -> exit
